@@ -253,6 +253,13 @@ class Region:
                     vals[ins.id] = val(ins.ops[0])
                 elif op in ('add', 'sub', 'mul', 'and', 'or', 'xor', 'shl', 'lshr', 'ashr', 'udiv', 'urem', 'sdiv', 'srem'):
                     a = val(ins.ops[0]); b = val(ins.ops[1])
+                    if op == 'sub' and isinstance(a, P_) and isinstance(b, P_) and a.reg == b.reg:
+                        # difference of two pointers into the same object (ptrtoint / sub / sdiv of `p - base`)
+                        vals[ins.id] = (a.off - b.off) & ((1 << w) - 1)
+                        continue
+                    if op in ('add', 'sub') and isinstance(a, P_) and isinstance(b, int):
+                        vals[ins.id] = P_(a.reg, a.off + (signed(b, w) if op == 'add' else -signed(b, w)))
+                        continue
                     if not (isinstance(a, int) and isinstance(b, int)):
                         raise Unsupported('%s: arithmetic on pointers at %s' % (f.name, ins.loc()))
                     m = (1 << w) - 1
